@@ -391,7 +391,7 @@ func (e *Engine) summariseLoop(st *State, fr *frame, b *ssa.BasicBlock, ifi *ssa
 			iv = cand
 		}
 	}
-	if iv == nil || nphi != 1 || iv.PreInc || iv.Op.String() != "<" {
+	if iv == nil || nphi != 1 || iv.Op.String() != "<" {
 		return nil, false
 	}
 	if s, ok := constInt(iv.Step); !ok || s != 1 {
@@ -402,12 +402,21 @@ func (e *Engine) summariseLoop(st *State, fr *frame, b *ssa.BasicBlock, ifi *ssa
 	if !ok1 || !ok2 {
 		return nil, false
 	}
+	first := initV // first counter value seen by the body
+	if iv.PreInc {
+		first = initV.Add(formInt(1))
+	}
 	// interpret one generic iteration
 	e.nextCell++
 	k := e.A.Var(fmt.Sprintf("iter#%d", e.nextCell), iv.Phi.Type())
 	stB := st.clone()
 	frB := fr.clone()
-	frB.env[iv.Phi] = k
+	if iv.PreInc {
+		frB.env[iv.Phi] = k.Sub(formInt(1))
+		frB.env[iv.Next] = k
+	} else {
+		frB.env[iv.Phi] = k
+	}
 	frB.stopAt = b
 	frB.forks[b] = 0
 	before := map[*Stream]*Form{}
@@ -444,12 +453,25 @@ func (e *Engine) summariseLoop(st *State, fr *frame, b *ssa.BasicBlock, ifi *ssa
 			return nil, false
 		}
 	}
+	var loopStores []Event
 	for _, ev := range back.St.events[nEv:] {
-		if ev.Kind != "readfail" {
+		switch ev.Kind {
+		case "readfail":
+		case "store":
+			// element store table[f(k)] = g(k): kept as a loop-store fact
+			ptr, _ := ev.Recv.(*Ptr)
+			if ptr == nil || ptr.SymIdx == nil {
+				return nil, false
+			}
+			loopStores = append(loopStores, Event{Kind: "loop-store", Fn: "loop-store", Recv: ptr, Args: []Val{k, first, limit, ptr.SymIdx, ev.Args[0]}, Pos: ev.Pos})
+		case "call", "invoke":
+			// calls inside the generic iteration are recorded with the iteration variable
+			loopStores = append(loopStores, Event{Kind: "loop-" + ev.Kind, Fn: ev.Fn, Recv: ev.Recv, Args: append([]Val{k, first, limit}, ev.Args...), Res: ev.Res, Pos: ev.Pos})
+		default:
 			return nil, false
 		}
 	}
-	trips := limit.Sub(initV)
+	trips := limit.Sub(first)
 	for s, p := range back.St.pos {
 		b0, ok := before[s]
 		if !ok {
@@ -463,8 +485,24 @@ func (e *Engine) summariseLoop(st *State, fr *frame, b *ssa.BasicBlock, ifi *ssa
 			st.pos[s] = b0.Add(trips.Mul(formInt(d)))
 		}
 	}
-	st.events = append(st.events, Event{Kind: "loop-summary", Fn: "loop", Args: []Val{initV, limit}, Pos: e.condPos(ifi)})
-	fr.env[iv.Phi] = limit
+	st.events = append(st.events, Event{Kind: "loop-summary", Fn: "loop", Args: []Val{first, limit}, Pos: e.condPos(ifi)})
+	st.events = append(st.events, loopStores...)
+	for _, ls := range loopStores {
+		if ls.Kind == "loop-store" {
+			ptr := ls.Recv.(*Ptr)
+			if ptr.Cell != nil {
+				if nv, ok := updatePath(e.cellVal(st, ptr.Cell), ptr.Path, &Opaque{Key: fmt.Sprintf("filled-by-loop#%d", ptr.Cell.ID)}); ok {
+					st.mem[ptr.Cell] = nv
+				}
+			}
+		}
+	}
+	if iv.PreInc {
+		fr.env[iv.Phi] = limit.Sub(formInt(1))
+		fr.env[iv.Next] = limit
+	} else {
+		fr.env[iv.Phi] = limit
+	}
 	res := e.exec(st, fr, b.Succs[1], b, 0, depth)
 	res = append(res, exits...)
 	return res, true
